@@ -21,6 +21,28 @@ CHECKS = {
              "exit guarantee; override values range over str/int/bool.",
         technique="Lean 4 proof over a hand-written model + exhaustive differential correspondence (model driver vs real object)",
     ),
+    "C05": dict(
+        category="proof",
+        text="Lean theorems, for ALL token lists / scripts (unbounded), about the model of helpers.split / trim_comment (sqlparse's "
+             "lexer as a one-character state machine + its statement splitter on tokens) and of LineageRunner._eval: lex_render, "
+             "render_lex, split_spec (kept pieces = non-empty `;`-delimited segments), split_render / count_eq for scripts "
+             "assembled from statements and arbitrary separator noise, empty_and_comment_only_dropped, `;` inside literals and "
+             "comments does not split, eval_is_fold / run_is_fold (falsy provider, session bracket, both split modes), "
+             "script_eq_statements, script_concat + differential correspondence of the model with helpers.split, the texts _eval "
+             "analyses (statement tap), statements() and the count on bounded-exhaustive and seeded-random assembled scripts "
+             "(generated pool + corpus statements), an assembly-known oracle, script-vs-per-statement lineage, and T-SQL "
+             "no-semicolon mode",
+        design_ref="DESIGN.md §5 C05",
+        note="partial: sqlparse's and sqlfluff's real lexers are modelled (not verified); Level0 restriction. " + TB +
+             ". The per-statement analyser and the assembler are abstract parameters of the runner theorems; insensitivity of the "
+             "analysis to attached comments / blanks / the trailing `;` (C07) is a hypothesis of script_eq_statements and is "
+             "exercised, not proved, here. T-SQL batch splitting (sqlfluff) is an abstract splitter in the theorems and is "
+             "checked impl-vs-impl. Class level0 (decidable, part of every hypothesis and of the generator): printable ASCII + "
+             "TAB + LF without $ \\ [, terminated literals/comments, no comment opener directly behind an operator character, no "
+             "hint comments, no BEGIN / DECLARE / upper-case GO, #( <= #) at every `;`.",
+        technique="Lean 4 proof over a hand-written model + differential correspondence (model driver vs helpers.split / tapped "
+                  "LineageRunner) + implementation-only oracles",
+    ),
 }
 
 NOT_YET = "machinery not built yet (build phase in progress, see DESIGN.md §9)"
